@@ -45,12 +45,31 @@ pub fn pool(args: &[&str]) -> Option<Vec<String>> {
                 .timeout(Some(timeout))
                 .pool_config(PoolConfig::new().max_size(max_size))
                 .build();
-            for _ in 0..nsends {
-                let t0 = Instant::now();
-                let r = t.send_raw(&envelope, &msg);
-                results.push(format!("{}@{}@{}", describe(&r), is_timeout(&r), t0.elapsed().as_millis()));
+            // the sends run in a thread of their own: a send that never returns is reported as HANG after 10 x T + 2 s
+            // instead of holding up the whole run
+            let (tx, rx) = std::sync::mpsc::channel();
+            let (envelope2, msg2) = (envelope.clone(), msg.clone());
+            std::thread::spawn(move || {
+                for _ in 0..nsends {
+                    let t0 = Instant::now();
+                    let r = t.send_raw(&envelope2, &msg2);
+                    if tx.send(format!("{}@{}@{}", describe(&r), is_timeout(&r), t0.elapsed().as_millis())).is_err() {
+                        return;
+                    }
+                }
+                drop(t);
+                let _ = tx.send("done".to_string());
+            });
+            loop {
+                match rx.recv_timeout(cap) {
+                    Ok(s) if s == "done" => break,
+                    Ok(s) => results.push(s),
+                    Err(_) => {
+                        results.push(format!("HANG@-@{}", cap.as_millis()));
+                        break;
+                    }
+                }
             }
-            drop(t);
         }
         "a" => {
             let rt = tokio::runtime::Builder::new_multi_thread().worker_threads(2).enable_all().build().ok()?;
@@ -386,4 +405,116 @@ pub fn cstall(args: &[&str]) -> Option<Vec<String>> {
     let elapsed = t0.elapsed().as_millis();
     drop(fillers);
     Some(vec![format!("{out}@{elapsed}")])
+}
+
+/// `late <T ms>`: the blocking transport (pool of one, timeout T) sends two messages; the peer answers the end of data of the
+/// first one only after 1.5 x T, and from then on numbers its replies (`250 after-late <n>`), so that a reply taken for
+/// the answer to another command shows. Later connections are served normally and accept with `250 second-ok`.
+/// Reports `result@is_timeout@ms` per send, the number of connections, and what the first connection saw after the
+/// late reply.
+pub fn late(args: &[&str]) -> Option<Vec<String>> {
+    use std::io::{BufRead, BufReader, Write};
+    let t_ms: u64 = args.first()?.parse().ok()?;
+    let listener = std::net::TcpListener::bind((crate::util::lo(), 0)).ok()?;
+    let port = listener.local_addr().ok()?.port();
+    let stop = Arc::new(AtomicBool::new(false));
+    let after: Arc<std::sync::Mutex<Vec<String>>> = Arc::new(std::sync::Mutex::new(Vec::new()));
+    let nconn = Arc::new(std::sync::atomic::AtomicUsize::new(0));
+    let server = {
+        let (stop, after, nconn) = (stop.clone(), after.clone(), nconn.clone());
+        std::thread::spawn(move || {
+            listener.set_nonblocking(true).ok();
+            let mut hs = Vec::new();
+            while !stop.load(Ordering::SeqCst) {
+                match listener.accept() {
+                    Ok((s, _)) => {
+                        s.set_nonblocking(false).ok();
+                        s.set_nodelay(true).ok();
+                        s.set_read_timeout(Some(Duration::from_secs(10))).ok();
+                        let first = nconn.fetch_add(1, Ordering::SeqCst) == 0;
+                        let after = after.clone();
+                        hs.push(std::thread::spawn(move || {
+                            let Ok(mut w) = s.try_clone() else { return };
+                            let mut r = BufReader::new(s);
+                            let _ = w.write_all(b"220 peer\r\n");
+                            let mut data = false;
+                            let mut late_done = false;
+                            let mut n = 0usize;
+                            loop {
+                                let mut line = String::new();
+                                if r.read_line(&mut line).unwrap_or(0) == 0 {
+                                    if late_done {
+                                        after.lock().unwrap().push("Z".into());
+                                    }
+                                    return;
+                                }
+                                if data {
+                                    if line == ".\r\n" {
+                                        data = false;
+                                        if first && !late_done {
+                                            std::thread::sleep(Duration::from_millis(t_ms * 3 / 2));
+                                            late_done = true;
+                                            let _ = w.write_all(b"250 late\r\n");
+                                        } else if first {
+                                            n += 1;
+                                            after.lock().unwrap().push("EOD".into());
+                                            let _ = w.write_all(format!("250 after-late {n}\r\n").as_bytes());
+                                        } else {
+                                            let _ = w.write_all(b"250 second-ok\r\n");
+                                        }
+                                    }
+                                    continue;
+                                }
+                                let verb: String = line.chars().take(4).collect::<String>().to_ascii_uppercase();
+                                if late_done {
+                                    after.lock().unwrap().push(verb.clone());
+                                }
+                                if verb == "EHLO" {
+                                    let _ = w.write_all(b"250-peer\r\n250 8BITMIME\r\n");
+                                } else if verb == "DATA" {
+                                    data = true;
+                                    let _ = w.write_all(b"354 go\r\n");
+                                } else if verb == "QUIT" {
+                                    let _ = w.write_all(b"221 bye\r\n");
+                                } else if late_done {
+                                    n += 1;
+                                    let _ = w.write_all(format!("250 after-late {n}\r\n").as_bytes());
+                                } else {
+                                    let _ = w.write_all(b"250 ok\r\n");
+                                }
+                            }
+                        }));
+                    }
+                    Err(_) => std::thread::sleep(Duration::from_millis(2)),
+                }
+            }
+            for h in hs {
+                let _ = h.join();
+            }
+        })
+    };
+    let timeout = Duration::from_millis(t_ms);
+    let envelope = lettre::address::Envelope::new(Some("a@b.c".parse().ok()?), vec!["x@y.z".parse().ok()?]).ok()?;
+    let hello = ClientId::Domain("c.example".into());
+    let mut out = Vec::new();
+    {
+        let t = SmtpTransport::builder_dangerous(crate::util::lo())
+            .port(port)
+            .hello_name(hello)
+            .timeout(Some(timeout))
+            .pool_config(PoolConfig::new().max_size(1))
+            .build();
+        for _ in 0..2 {
+            let t0 = Instant::now();
+            let r = t.send_raw(&envelope, b"m\r\n");
+            out.push(format!("{}@{}@{}", describe(&r), is_timeout(&r), t0.elapsed().as_millis()));
+        }
+        drop(t);
+    }
+    // let the first connection's handler see the close
+    std::thread::sleep(Duration::from_millis(t_ms * 2 + 50));
+    stop.store(true, Ordering::SeqCst);
+    let _ = server.join();
+    let seen = after.lock().unwrap().join(",");
+    Some(vec![out.join(";"), nconn.load(Ordering::SeqCst).to_string(), if seen.is_empty() { "-".into() } else { seen }])
 }
